@@ -108,6 +108,9 @@ def replay(L, p):
     return {'outcome': 'contract-held' if st == 'ok' else 'vacuous', 'args': {k: str(v) for k, v in args.items() if k != 'self'}}
 
 
+import os
+os.environ.setdefault('VERIF_CASE_TIMEOUT', '180')      # the 1000-state sparse eigen-solves take 5-25 s, much longer on a busy machine: not a hang
+
 if __name__ == '__main__':
     _small = cases
 
